@@ -5,7 +5,7 @@ re-parse of rendered text on comma / quotes, B3 getters go through getfilter.
 """
 import ast
 
-from sa.model import AnalysisError, walk_no_nested, norm, call_name, stmt_of
+from sa.model import AnalysisError, walk_no_nested, norm, call_name, stmt_of, mangle
 from sa.util import const_value, fact_atom
 from .c12 import FactoryRoles
 from .proles import ParserRoles
@@ -19,6 +19,161 @@ def _what(e):
         if isinstance(n, ast.Subscript) and isinstance(n.slice, ast.Constant) and isinstance(n.slice.value, str):
             return n.slice.value
     return norm(e)[:40]
+
+
+READER_SAMPLES = [
+    ("header", "HeaderCommand", {"match-type": ":contains", "header-names": '"Subject"', "key-list": '"x y"'}, {}),
+    ("header", "HeaderCommand", {"match-type": ":is", "header-names": ['"To"', '"Cc"'], "key-list": ['"a"', '"b"']}, {}),
+    ("header", "HeaderCommand", {"match-type": ":matches", "header-names": '"To"', "key-list": ['"a"', '"b"']}, {}),
+    ("address", "AddressCommand", {"match-type": ":is", "header-list": '"from"', "key-list": '"a@b.c"'}, {}),
+    ("address", "AddressCommand", {"match-type": ":matches", "header-list": ['"from"', '"to"'], "key-list": ['"*@b.c"']}, {}),
+    ("envelope", "EnvelopeCommand", {"match-type": ":contains", "header-list": '"to"', "key-list": '"list"'}, {}),
+    ("envelope", "EnvelopeCommand", {"match-type": ":is", "header-list": ['"from"'], "key-list": ['"a"', '"b"']}, {}),
+    ("exists", "ExistsCommand", {"header-names": '"List-Id"'}, {}),
+    ("exists", "ExistsCommand", {"header-names": ['"A"', '"B"']}, {}),
+    ("body", "BodyCommand", {"body-transform": ":text", "match-type": ":contains", "key-list": '"sale"'}, {}),
+    ("body", "BodyCommand", {"body-transform": ":raw", "match-type": ":is", "key-list": ['"a"', '"b"']}, {}),
+    ("currentdate", "CurrentdateCommand", {"zone": ":zone", "match-type": ":is", "date-part": '"date"', "key-list": '"2019-02-26"'},
+     {"zone": '"+0100"'}),
+    ("currentdate", "CurrentdateCommand", {"zone": ":zone", "match-type": ":value", "date-part": '"date"', "key-list": '"2019-02-26"'},
+     {"zone": '"+0100"', "match-type": '"ge"'}),
+    ("currentdate", "CurrentdateCommand", {"zone": ":zone", "match-type": ":count", "date-part": '"hour"', "key-list": ['"1"', '"2"']},
+     {"zone": '"-0500"', "match-type": '"lt"'}),
+]
+
+
+def reader_eval(ctx, R, gc):
+    """B1 by evaluation: get_filter_conditions interpreted over stand-in trees [K], [not, K] and [not, K, K'] for every negatable kind K
+    and sample stored arguments.  What is read for `not K` must be what is read for K with the negation folded into the match-type tag
+    (:is -> :notis; exists -> notexists) and nothing else changed, and the negation must not reach K'.
+    -> ("ok", n) | ("bad", what) | None when the interpreter cannot follow the reader."""
+    from sa import fd
+    prog = ctx.program
+    cm = prog.module("commands")
+
+    def class_names(e):
+        out = []
+        for x in (e.elts if isinstance(e, ast.Tuple) else [e]):
+            out.append(x.attr if isinstance(x, ast.Attribute) else (x.id if isinstance(x, ast.Name) else None))
+        return out
+
+    def on_rec(rec, m, k, args, kw, st):
+        env = {"%s.%s" % (m.params[0], f): fd.Const(v) for f, v in rec.fields.items()}
+        env[m.params[0]] = fd.Const(rec)
+        for p_, a_ in zip(m.params[1:], args):
+            env[p_] = a_
+        for k_, v_ in kw.items():
+            env[k_] = v_
+        sub = fd.Interp(m.node, k.name, oracle, loop_unroll=12, max_depth=4, max_paths=300)
+        rs = sub.run(env)
+        out = []
+        for p_ in rs:
+            out.append(fd.Exc(p_.value, p_.node) if p_.kind == "raise" else (p_.value, None))
+        return out
+
+    def oracle(interp, e, name, recv, args, kw, st):
+        if name == "isinstance" and len(e.args) == 2 and args and isinstance(args[0], fd.Const) and isinstance(args[0].v, fd.Rec):
+            names = class_names(e.args[1])
+            if None in names or not all(prog.cls(n) is not None for n in names):
+                return None
+            rc = prog.cls(args[0].v.cls)
+            mro = [c.name for c in prog.mro(rc)] if rc is not None else [args[0].v.cls]
+            return [(fd.Const(any(n in mro for n in names)), None)]
+        if name == "walk" and isinstance(recv, fd.Const) and isinstance(recv.v, fd.Rec) and "nodes" in recv.v.fields:
+            return [(fd.Const(list(recv.v.fields["nodes"])), None)]
+        if isinstance(recv, fd.Const) and isinstance(recv.v, fd.Rec) and isinstance(e.func, ast.Attribute):
+            rc = prog.cls(recv.v.cls)
+            if rc is not None:
+                for k in prog.mro(rc):
+                    m = k.methods.get(e.func.attr) or k.methods.get(mangle(k.name, e.func.attr))
+                    if m is not None:
+                        return on_rec(recv.v, m, k, args, kw, st)
+        if name and name.startswith("self.") and name[5:] == "getfilter":
+            return None
+        if name and name.startswith("self.") and interp.clsname == R.cls.name and name[5:] in R.m and R.m[name[5:]].node is not interp.f:
+            return fd.Inline(R.m[name[5:]])
+        if name and name.startswith("self.") and interp.clsname and prog.cls(interp.clsname) is not None:
+            for k in prog.mro(prog.cls(interp.clsname)):
+                m = k.methods.get(name[5:]) or k.methods.get(mangle(k.name, name[5:]))
+                if m is not None and m.node is not interp.f and "self" in interp.__dict__.get("_rec_env", {"self": 1}):
+                    return fd.Inline(m)
+        fn = e.func
+        if isinstance(fn, ast.Attribute) and isinstance(fn.value, ast.Name) and fn.value.id in prog.modules and fn.attr in prog.modules[fn.value.id].funcs:
+            return fd.Inline(prog.modules[fn.value.id].funcs[fn.attr])
+        if isinstance(fn, ast.Name) and interp.f is not None:
+            for mod in (cm, prog.module("factory"), prog.modules.get("tools")):
+                if mod is not None and fn.id in mod.funcs:
+                    return fd.Inline(mod.funcs[fn.id])
+        return None
+
+    def read(nodes):
+        flt = fd.Rec("IfCommand", nodes=nodes, name="if")
+        def orc(interp, e, name, recv, args, kw, st):
+            if name and name.startswith("self.") and name[5:] == "getfilter":
+                return [(fd.Const(flt), None)]
+            return oracle(interp, e, name, recv, args, kw, st)
+        it = fd.Interp(gc.node, R.cls.name, orc, loop_unroll=6, max_depth=4, max_paths=300)
+        try:
+            ps = it.run({gc.params[1]: fd.Const("f")})
+        except (fd.TooManyPaths, RecursionError):
+            return None
+        if len(ps) == 1 and ps[0].kind == "raise":
+            return ("raises", ps[0].value, ps[0].node)
+        if len(ps) != 1 or ps[0].kind != "return":
+            return None
+        return _plain(ps[0].value)
+
+    def mk(kind, cls, a, x):
+        return fd.Rec(cls, name=kind, arguments=dict(a), extra_arguments=dict(x))
+    nt = fd.Rec("NotCommand", name="not", arguments={}, extra_arguments={})
+    other = mk("size", "SizeCommand", {"comparator": ":over", "limit": "10K"}, {})
+    n = 0
+    for kind, cls, a, x in READER_SAMPLES:
+        if prog.cls(cls) is None:
+            continue
+        node = mk(kind, cls, a, x)
+        plain, neg, seq = read([node]), read([nt, node]), read([nt, node, other])
+        if plain is None or neg is None or seq is None:
+            return None
+        for r_, what in ((plain, kind), (neg, "not " + kind)):
+            if isinstance(r_, tuple) and r_ and r_[0] == "raises":
+                return ("bad", "reading back `%s` with stored arguments %r raises %s" % (what, dict(a, **x), r_[1]), r_[2], "raises:%s" % kind)
+        if isinstance(seq, tuple) and seq and seq[0] == "raises":
+            return None
+        if not (isinstance(plain, list) and len(plain) == 1 and isinstance(plain[0], tuple)):
+            return ("bad", "a single %s condition %r is read back as %r" % (kind, a, plain))
+        want = _fold(plain[0], a.get("match-type"), kind)
+        n += 1
+        if not (isinstance(neg, list) and len(neg) == 1 and neg[0] == want):
+            return ("bad", "`not %s` with stored arguments %r reads back as %r; the same test without `not` reads %r, so the negated one is %r"
+                    % (kind, dict(a, **x), neg[0] if isinstance(neg, list) and len(neg) == 1 else neg, plain[0], want))
+        if not (isinstance(seq, list) and len(seq) == 2 and seq[0] == want and isinstance(seq[1], tuple) and seq[1][:1] == ("size",)
+                and not any(isinstance(v, str) and v.startswith(":not") for v in seq[1])):
+            return ("bad", "[not %s, size] reads back as %r: the negation of the first test reaches the second" % (kind, seq))
+    return ("ok", n) if n >= 6 else None
+
+
+def _fold(t, tag, kind):
+    if kind == "exists":
+        return ("not" + t[0],) + tuple(t[1:])
+    out, done = [], False
+    for v in t:
+        if not done and isinstance(v, str) and v == tag:
+            out.append(":not" + v[1:])
+            done = True
+        else:
+            out.append(v)
+    return tuple(out)
+
+
+def _plain(v):
+    from sa import fd
+    if isinstance(v, fd.Const):
+        return v.v
+    if isinstance(v, fd.Tup):
+        items = [_plain(x) for x in v.items]
+        return tuple(items)
+    return None
 
 
 def run(ctx):
@@ -86,6 +241,24 @@ def run(ctx):
         else:
             ctx.violation("B1", gc, "no-args-as-tuple:%s" % k, "%s has no args_as_tuple" % cls, node=gc.node,
                           witness="reading back a %s condition raises AttributeError" % k)
+    # negation folding and its scope, by evaluation over stand-in trees when the interpreter can follow the reader
+    try:
+        rev = reader_eval(ctx, R, gc)
+    except RecursionError:
+        rev = None
+    if rev is not None and rev[0] == "bad":
+        ctx.violation("B1", gc, rev[3] if len(rev) > 3 else "model:reader", rev[1], node=rev[2] if len(rev) > 2 and rev[2] is not None else gc.node,
+                      witness="the condition read back differs from the one put in (or reading raises)")
+    elif rev is not None:
+        ctx.holds("B1", "%s: for %d sample tests (string and list arguments of header, address, envelope, exists, body, currentdate) `not T` reads "
+                  "back as T with the negation folded into the match-type tag / name, and the negation does not reach the next test"
+                  % (gc.qualname, rev[1]))
+    if rev is None:
+        _negation_syntactic(ctx, R, prog, gc, neg_dispatch)
+    _b2_to_b4(ctx, R, PR, prog, gc, ga, gm)
+
+
+def _negation_syntactic(ctx, R, prog, gc, neg_dispatch):
     # negation: which kinds can the builder negate?
     neg_tag = set()   # via ":not..." tag
     src = R.create
@@ -141,6 +314,9 @@ def run(ctx):
                       "the next one", node=apps[0],
                       witness='[("notexists","List-Id"), ("Subject",":contains","x")] reads back with the second condition negated')
 
+
+
+def _b2_to_b4(ctx, R, PR, prog, gc, ga, gm):
     # ---- B2 -----------------------------------------------------------------------
     ctx.rule("B2", "read-back does not decide or split on commas in rendered text")
     n = 0
@@ -172,6 +348,12 @@ def run(ctx):
         for x in walk_no_nested(f.node):
             if isinstance(x, ast.Call) and isinstance(x.func, ast.Attribute) and x.func.attr in ("strip", "lstrip", "rstrip"):
                 a = const_value(prog, f, x.args[0]) if x.args else None
+                # blanks removed BEFORE the quotes are (`v.strip().strip('"')`) lie outside the quoted string: they are not part of the value
+                par = getattr(x, "_parent", None)
+                outer = isinstance(par, ast.Attribute) and par.attr in ("strip", "lstrip", "rstrip") and isinstance(getattr(par, "_parent", None), ast.Call) \
+                    and par._parent.args and const_value(prog, f, par._parent.args[0]) == '"'
+                if outer and (a is None or (isinstance(a, str) and '"' not in a and not a.strip())):
+                    continue
                 if a != '"':
                     hit = True
                     ctx.violation("B2", f, "strip-eats-value:%s" % norm(x)[:40], "%s removes %s from the ends of a value, not only the quotes: "
